@@ -255,6 +255,7 @@ pub fn run(prop: &'static str) -> i32 {
     let mut model_states = 0u64;
     let mut model_transitions = 0u64;
     let mut model_capped = 0u32;
+    let mut stateright_checked = 0u32;
     let mut replayed = 0u64;
     let mut replay_steps = 0u64;
     let mut divergences: Vec<String> = Vec::new();
@@ -270,6 +271,13 @@ pub fn run(prop: &'static str) -> i32 {
             model_states += ex.states;
             model_transitions += ex.transitions;
             if ex.capped { model_capped += 1; }
+            // cross-check: the same transition function under stateright must reach the same number of states
+            if !ex.capped && (th || sc.cfg.threads <= 2) {
+                let (n, bad) = crate::proto::stateright_check(&spec, 4);
+                stateright_checked += 1;
+                if n != ex.states { rep.machinery_error(format!("{}: hand-rolled BFS reached {} states, stateright {}", sc.name, ex.states, n)); }
+                if !bad.is_empty() && ex.deadlocks.is_empty() { rep.machinery_error(format!("{}: stateright reports {:?} but the hand-rolled BFS found no deadlock", sc.name, bad)); }
+            }
             let oversized = sc.group == "oversized";
             if !ex.capped {
                 if !ex.deadlocks.is_empty() {
@@ -386,6 +394,7 @@ pub fn run(prop: &'static str) -> i32 {
         rep.set("transitions", json!(model_transitions));
         rep.set("traces_validated_against_impl", json!(replayed));
         rep.set("model_scenarios_capped", json!(model_capped));
+        rep.set("model_scenarios_cross_checked_with_stateright", json!(stateright_checked));
         rep.set("model_steps_replayed", json!(replay_steps));
         rep.set("distinct_event_traces", json!(total_traces));
         for d in &divergences { rep.machinery_error(format!("model/code divergence (the protocol model no longer describes the code; not a verdict): {d}")); }
